@@ -10,6 +10,7 @@ import copy
 import json
 import os
 import random
+import subprocess
 import time
 
 import check_runner
@@ -432,6 +433,7 @@ def run(prop, tier, seed):
                 {"config": cfg, "expected": ["ResultIsDeclarative", "GroupsReachTheirBenchmarks"], "got": r.get("violated")})
             if r.get("violated") not in ("ResultIsDeclarative", "GroupsReachTheirBenchmarks"):
                 raise V.ToolError(f"{cfg}: expected a violation, got {r.get('violated')}")
+        names_level(res, tier, seed)
         push_order_level(res, tier, seed)
         import check_entrylist
         check_entrylist.level(res, tier, seed)
@@ -571,3 +573,97 @@ def replay(prop, path):
     if n == 0:
         print("replay: no violation reproduced")
     return res.finish()
+
+
+# ------------------------------------------------------------------ legal names
+NAME_PROGRAMS = {
+    # name -> (source with @B@ / @G@ where #[divan::bench] / #[divan::bench_group] go, written display paths)
+    "control": ("mod m {\n    @B@\n    pub fn alpha() {}\n    @B@\n    pub fn beta() {}\n}\n", ["m::alpha", "m::beta"]),
+    "case_fns": ("mod m {\n    @B@\n    pub fn foo() {}\n    @B@\n    pub fn FOO() {}\n}\n", ["m::FOO", "m::foo"]),
+    "case_bencher_fns": ("mod m {\n    @B@\n    pub fn run(b: divan::Bencher) { b.bench(|| 1) }\n    @B@\n"
+                         "    pub fn Run(b: divan::Bencher) { b.bench(|| 2) }\n}\n", ["m::Run", "m::run"]),
+    "fn_named_divan": ("@B@\npub fn divan() {}\n", ["divan"]),
+    "sharp_s": ("mod m {\n    @B@\n    pub fn stra\u00dfe() {}\n    @B@\n    pub fn strasse() {}\n}\n",
+                ["m::strasse", "m::stra\u00dfe"]),
+    "case_groups": ("@G@\nmod grp {\n    @B@\n    pub fn a() {}\n}\n@G@\nmod GRP {\n    @B@\n    pub fn a() {}\n}\n",
+                    ["GRP::a", "grp::a"]),
+    "underscore_case": ("mod m {\n    @B@\n    pub fn ab_c() {}\n    @B@\n    pub fn AB_C() {}\n    @B@\n    pub fn aB_c() {}\n}\n",
+                        ["m::AB_C", "m::aB_c", "m::ab_c"]),
+}
+NAME_HEAD = ("#![allow(non_snake_case, dead_code, unused, uncommon_codepoints, confusable_idents, "
+             "mixed_script_confusables, non_upper_case_globals)]\nfn main() { divan::main(); }\n")
+
+
+def names_level(res, tier, seed):
+    """C12 quantifies over programs: every crate whose items are legal Rust
+    (witness: it compiles with the attributes removed) must compile with the
+    attributes and list exactly the written benchmarks.  Item names that
+    differ only by case, by Unicode case folding, or that coincide with
+    identifiers the macros introduce themselves are the generated shapes."""
+    import progs
+    d = os.path.join(mgen.MROOT, "c12names")
+    os.makedirs(os.path.join(d, "src", "bin"), exist_ok=True)
+    toml = ['[package]', 'name = "mgen-c12names"', 'version = "0.0.0"', 'edition = "2021"', 'publish = false',
+            'autobins = false', '', '[dependencies]',
+            'divan = { path = "%s", default-features = false, features = ["divan_verif"] }' % (V.REPO_OVERRIDE or "/repo"),
+            '', '[workspace]', '', '[profile.dev]', 'opt-level = 0', 'debug = 0', 'incremental = false', '']
+    for name, (src, _w) in NAME_PROGRAMS.items():
+        for variant, b, g in (("a", "#[divan::bench]", "#[divan::bench_group]"), ("w", "", "")):
+            text = NAME_HEAD + src.replace("@B@", b).replace("@G@", g)
+            mgen._write_if_changed(os.path.join(d, "src", "bin", f"n_{name}_{variant}.rs"), text)
+            toml += ['[[bin]]', f'name = "n_{name}_{variant}"', f'path = "src/bin/n_{name}_{variant}.rs"', '']
+    mgen._write_if_changed(os.path.join(d, "Cargo.toml"), "\n".join(toml))
+    mgen._write_if_changed(os.path.join(d, ".cargo", "config.toml"),
+                           f'[net]\noffline = true\n\n[build]\ntarget-dir = "{mgen.TARGET}"\n')
+    if not os.path.exists(os.path.join(d, "Cargo.lock")):
+        import shutil
+        shutil.copy(os.path.join(V.HARNESS, "Cargo.lock"), os.path.join(d, "Cargo.lock"))
+    env = dict(os.environ)
+    env["CARGO_NET_OFFLINE"] = "true"
+
+    def build(binname):
+        p = subprocess.run(["cargo", "build", "--offline", "--bin", binname], cwd=d, env=env,
+                           stdout=subprocess.PIPE, stderr=subprocess.STDOUT, text=True)
+        errs = [l for l in p.stdout.split("\n") if l.startswith("error")]
+        return p.returncode == 0, errs[:4]
+
+    recs = []
+    by_name = {}
+    for name, (src, written) in NAME_PROGRAMS.items():
+        legal, werrs = build(f"n_{name}_w")
+        if not legal:
+            raise V.ToolError(f"names level: {name} is not legal Rust without the attributes: {werrs}")
+        ok, errs = build(f"n_{name}_a")
+        listed = []
+        if ok:
+            p = subprocess.run([os.path.join(mgen.TARGET, "debug", f"n_{name}_a"), "--list"],
+                               env={k: v for k, v in env.items() if not k.startswith("DIVAN_") and k != "NEXTEST"},
+                               stdout=subprocess.PIPE, stderr=subprocess.PIPE, timeout=60)
+            stack = []
+            rows = [r for r in progs.lex_stdout(p.stdout.decode("utf-8", "replace"), False) if r["t"] == "row"]
+            for i, r in enumerate(rows):
+                depth = len(r["prefix"]) + (0 if r["branch"] == "none" else 1)
+                stack = stack[:depth] + [r["name"]]
+                nxt = rows[i + 1] if i + 1 < len(rows) else None
+                nd = (len(nxt["prefix"]) + (0 if nxt["branch"] == "none" else 1)) if nxt else 0
+                if depth >= 1 and nd <= depth:      # a leaf
+                    listed.append("::".join(stack[1:]))
+        rec = {"seq": 0, "tid": -1, "ev": "compile", "id": f"C12-names-{name}", "legal": True, "compiled": ok,
+               "written": [progs.cp(x) for x in sorted(written)], "listed": [progs.cp(x) for x in sorted(listed)],
+               "errors": errs, "source": NAME_HEAD + src.replace("@B@", "#[divan::bench]").replace("@G@", "#[divan::bench_group]")}
+        recs.append(rec)
+        by_name[rec["id"]] = ({"source": rec["source"], "errors": errs}, {"action": "compile + --list"})
+    path = os.path.join(V.WORK, "C12.names.ndjson")
+    with open(path, "w") as f:
+        for r in recs:
+            f.write(json.dumps(r) + "\n")
+    res.extra["legal_name_programs"] = {r["id"]: {"compiled": r["compiled"], "listed": len(r["listed"])} for r in recs}
+    check_runner.validate_runs(res, "C12", path, "macro:legal-item-names", by_name)
+    # negative control: a program reported as not compiling must be flagged
+    bad = dict(recs[0], compiled=False, id="C12-names-negctl")
+    npath = os.path.join(V.WORK, "C12.names.negctl.ndjson")
+    with open(npath, "w") as f:
+        f.write(json.dumps(bad) + "\n")
+    r = V.tlc_trace("RunnerTrace", "RunnerTrace_C12", npath)
+    if r["accepted"] or "C12:program_of_legal_items" not in r["out"]:
+        raise V.ToolError("names level: negative control not reported")
